@@ -140,7 +140,8 @@ def run(ctx):
         rnd.shuffle(ps)
         # differences in the containment tree alone are few among hundreds
         # of attribute edits: try them first
-        ps.sort(key=lambda lt: not lt[0].startswith("tree:"))
+        ps.sort(key=lambda lt: not lt[0].startswith(
+            ("tree:", "expr.symbols-exchanged", "exchange:")))
         done = 0
         for label, thunk in ps:
             if done >= ctx.params.get("perturbations_per_case", 40):
@@ -162,7 +163,7 @@ def run(ctx):
             ctx.count("cases")
             ctx.count("perturbed_pairs")
             ctx.seen("perturbation_labels", label)
-            if label.startswith("tree:"):
+            if label.startswith(("tree:", "exchange:", "expr.symbols-ex")):
                 ctx.count("perturbation:" + label)
             ctx.seen("nontrivial", (na_spec, label, n2))
             if expected:
